@@ -48,11 +48,13 @@ def write_cfg(path, spec_consts, invariants=(), properties=(), post=None, view=N
         f.write("CHECK_DEADLOCK FALSE\n")
 
 
-def validate_trace(trace_spec, trace, deviations, workdir, parts=8, heap="3g", consts=None):
+def validate_trace(trace_spec, trace, deviations, workdir, parts=8, heap="3g", consts=None, no_checkmem=False):
     """Validate one trace file against a trace spec. Returns dict with accepted, fail_line, deviations, skips."""
     chunks, lines = split_trace(trace, parts, workdir)
     cfg = os.path.join(workdir, "trace.cfg")
-    k = {"Deviations": c.tla_set(deviations), "CheckMem": "FALSE"}
+    k = {"Deviations": c.tla_set(deviations)}
+    if not no_checkmem:
+        k["CheckMem"] = "FALSE"
     if consts:
         k.update(consts)
     write_cfg(cfg, k, invariants=["Report"], post="TraceAccepted")
@@ -98,9 +100,12 @@ def validate_trace(trace_spec, trace, deviations, workdir, parts=8, heap="3g", c
         if out["accepted"] or first + line_in_chunk < out["fail"]["line"]:
             out["accepted"] = False
             out["fail"] = {"line": first + line_in_chunk, "chunk": path, "line_in_chunk": line_in_chunk,
-                           "diag": [x[:1500] for x in r.printed("MISMATCH-CMD") + r.printed("MISMATCH-MODEL-REPLY")
-                                    + r.printed("MISMATCH-LOGGED-REPLY") + r.printed("MISMATCH-MODEL-STATE")
-                                    + r.printed("MISMATCH-LOGGED-STATE")]}
+                           "diag": [x[:1500] for t in ("MISMATCH-CMD", "MISMATCH-MODEL-REPLY", "MISMATCH-LOGGED-REPLY",
+                                                       "MISMATCH-MODEL-STATE", "MISMATCH-LOGGED-STATE", "MISMATCH-MEM",
+                                                       "MISMATCH-IMAGE", "MISMATCH-RESTORED", "MISMATCH-MODEL-FILES",
+                                                       "MISMATCH-FAITHFUL-MODEL", "MISMATCH-EXPECTED-PREFIXES",
+                                                       "MISMATCH-FOP", "MISMATCH-AGAIN", "MISMATCH-NOTE")
+                                    for x in r.printed(t)]}
     out["lines"] = lines
     return out
 
